@@ -556,6 +556,8 @@ impl<'a> Gen<'a> {
     pub fn gen_files(&mut self, cfg: &GenCfg) {
         let n = self.rng.range(cfg.files.0, cfg.files.1);
         let mut paths = self.gen_paths(n, cfg.dirs, cfg.wrap_langs);
+        // files whose name says nothing to blockwatch, and the `-E` mappings that make them known
+        let mut langs: Vec<Option<String>> = vec![None; paths.len()];
         if self.rng.chance(cfg.p_custom_ext, 100) {
             let cands: Vec<usize> = (0..paths.len())
                 .filter(|&i| [".py", ".rb", ".sh"].iter().any(|e| paths[i].ends_with(e)) && !paths[i].contains('\\'))
@@ -563,23 +565,39 @@ impl<'a> Gen<'a> {
             if !cands.is_empty() {
                 let i = *self.rng.pick(&cands);
                 let (stem, lang) = paths[i].rsplit_once('.').map(|(s, e)| (s.to_string(), e.to_string())).unwrap();
-                let ext = *self.rng.pick(CUSTOM_EXTS);
-                let np = format!("{stem}.{ext}");
+                let shape = self.rng.below(10);
+                // the key of the mapping: an unknown extension, or (no dot) the whole file name
+                let (np, key) = if shape < 3 {
+                    let name = *self.rng.pick(&["BUILD", "Dockerfile", "WORKSPACE"]);
+                    let dir = stem.rsplit_once('/').map(|(d, _)| format!("{d}/")).unwrap_or_default();
+                    (format!("{dir}{name}"), name.to_string())
+                } else {
+                    let ext = *self.rng.pick(CUSTOM_EXTS);
+                    (format!("{stem}.{ext}"), ext.to_string())
+                };
                 let mapped = !cfg.unmapped_ext || self.rng.chance(3, 4);
-                let clash = paths.iter().any(|p| *p == np)
-                    || self.world.args.extensions.iter().any(|(k, _)| k == ext);
+                let clash = paths.iter().any(|p| *p == np || p.starts_with(&format!("{np}/")))
+                    || self.world.args.extensions.iter().any(|(k, _)| *k == key);
                 if !clash {
                     paths[i] = np;
-                    if mapped {
-                        self.world.args.extensions.push((ext.to_string(), lang));
+                    if mapped && shape >= 8 && !paths.iter().any(|p| p.ends_with(".markdown")) {
+                        // a chain: the target of this mapping is itself remapped. Mappings are not
+                        // transitive: this file is Markdown, and `.markdown` files are now <lang>.
+                        self.world.args.extensions.push((key, "markdown".into()));
+                        self.world.args.extensions.push(("markdown".into(), lang));
+                        langs[i] = Some("markdown".into());
+                    } else if mapped {
+                        self.world.args.extensions.push((key, lang.clone()));
+                        langs[i] = Some(lang);
                     }
                 }
             }
         }
-        for p in paths {
+        for (p, lang) in paths.into_iter().zip(langs) {
             let nb = self.rng.range(cfg.blocks.0, cfg.blocks.1);
             let mut f = FileSpec {
                 path: p.clone(),
+                lang,
                 tab_tags: self.rng.chance(1, 10),
                 bom: self.rng.chance(1, 10),
                 spelling: if self.rng.chance(1, 6) { self.rng.next_u64() | 1 } else { 0 },
@@ -855,6 +873,18 @@ impl<'a> Gen<'a> {
         }
         if self.uses_lua() && self.world.env.lua_mode.is_none() && self.rng.chance(2, 3) {
             self.world.env.lua_mode = Some("safe".into());
+        }
+        // a file whose own extension is remapped with `-E` is read with the target grammar: write it
+        // in that language (files added after `gen_files` may have such an extension)
+        for f in &mut self.world.files {
+            let name = f.path.rsplit('/').next().unwrap_or(&f.path);
+            let ext = name.rsplit_once('.').map(|(_, e)| e).unwrap_or(name);
+            if let Some((_, target)) = self.world.args.extensions.iter().find(|(k, _)| k == ext) {
+                f.lang = Some(target.clone());
+            } else if model::known_extension(&f.path, &[]) {
+                // re-named by a generator after `gen_files`: its own extension decides again
+                f.lang = None;
+            }
         }
         // `git diff` shows three unchanged lines around a change unless told otherwise
         self.world.diff_context = *self.rng.pick(&[0usize, 0, 3, 3, 1]);
